@@ -167,6 +167,18 @@ pub fn c16_check(pc: &PairCase, exact_int: bool, st: &mut PiStats) -> PiVerdict 
 pub fn c16_worker(ctx: &mut Ctx) {
     let total = ctx.count(1_500_000, 60_000_000);
     let mut st = PiStats::default();
+    // histories of two calls on the same events (state left on the events by the first call)
+    let histories = ctx.count(100_000, 4_000_000);
+    for i in ctx.my_indices(histories) {
+        if i % 4096 == 0 && ctx.out_of_time() {
+            break;
+        }
+        let mut rng = ctx.rng("history", i);
+        ctx.evaluations += 1;
+        if let Err(m) = crate::pimon::check_two_call_history(&mut rng, &mut st) {
+            ctx.violation("pair:history", &m, json!({"kind": "pair-history", "property": "C16", "seed": ctx.seed, "index": i}));
+        }
+    }
     let mut n2_reported = false;
     let handle = |ctx: &mut Ctx, pc: &PairCase, exact_int: bool, st: &mut PiStats, n2_reported: &mut bool| {
         ctx.evaluations += 1;
